@@ -590,39 +590,23 @@ def enum_decision(F, path, param_enums):
         return None, "enum layout not found"
     keys = sorted(enums)
     table = {}
+    from .. import evalx
+    S_ = sym.Sym(b)
+    paths = S_.paths()
     for combo in itertools.product(*[sorted(enums[k].items(), key=lambda kv: kv[1]) for k in keys]):
-        val = {k: combo[i][1] for i, k in enumerate(keys)}
-        res = None
-        hits = 0
-        for p in paths:
-            ok = True
-            for (_, d, taken, vals) in p.conds:
-                e = n(d)
-                # discr(param k) or discr(load(deref(param k)))
-                m = match(("discr", V("x")), e)
-                who = None
-                if m:
-                    x = m["x"]
-                    if x[0] == "param":
-                        who = x[1]
-                    elif x == ("load", ("deref", x[1][1])) if x[0] == "load" and x[1][0] == "deref" else False:
-                        who = x[1][1][1] if x[1][1][0] == "param" else None
-                if who is None or who not in val:
-                    return None, "unrecognised condition %s in %s" % (sym.fmt(e), path)
-                v = val[who]
-                if taken == "otherwise":
-                    if v in vals:
-                        ok = False
-                        break
-                elif v != taken:
-                    ok = False
-                    break
-            if ok:
-                hits += 1
-                res = (p.end, n(p.ret) if p.ret else None)
-        if hits != 1:
-            return None, "assignment %s matches %d paths in %s" % (val, hits, path)
-        table[tuple(c[0] for c in combo)] = res
+        # evaluate the function on the enum values themselves (any spelling: match, if let, ==, helper calls)
+        asg = {"symbolic": True, "params": {k: ("adt", "%s::%s" % (param_enums[k], combo[i][0])) for i, k in enumerate(keys)}}
+        try:
+            v = evalx.run(S_, F, paths, asg)
+        except evalx.Panics:
+            table[tuple(c[0] for c in combo)] = ("diverge", None)
+            continue
+        except evalx.Unknown as ex:
+            return None, "cannot evaluate %s on %s: %s" % (path, [c[0] for c in combo], ex)
+        if isinstance(v, int):
+            table[tuple(c[0] for c in combo)] = ("return", ("const", int(v)))
+        else:
+            table[tuple(c[0] for c in combo)] = ("return", v)
     return table, None
 
 
